@@ -1,4 +1,5 @@
 import OutrankModel.Lemmas.Pipeline
+import OutrankModel.Props.C04
 import OutrankModel.Props.C05
 import OutrankModel.Props.C06
 import OutrankModel.Props.C08
@@ -10,8 +11,10 @@ Theorems about `Pipeline.rankFile` (Model/Pipeline.lean) – the function the dr
 correspondence family.  Every theorem is a COMPOSITION of the per-property theorems (C16 parser round trip, C08 streaming
 loop / median aggregation / final sort, C06 pair enumeration and mirrored rows, C05 label orientation and dispatch over
 the REGENERATED table, C01 / C03 meaning of the numba scores); nothing about the components is re-proved here.
-They hold for ALL headers, line lists, batch sizes ≥ 1, subsampling factors ≥ 1 and every arithmetic `Arith α σ`
-(the `MI.realOps` statements are the ones that use the C01 / C03 identities over ℝ).
+They hold for ALL headers, line lists, batch sizes ≥ 1, subsampling factors ≥ 1, sampling ratios `rnum / rden` and every
+arithmetic `Arith α σ` (the `MI.realOps` statements are the ones that use the C01 / C03 identities over ℝ; those
+identities are about the estimator WITHOUT sub-sampling, so these statements carry `c.rnum = 1`, `c.rden = 1`, the exact
+value of `--mi_stratified_sampling_ratio 1.0`).  Section 6 is the sub-sampled estimator (`rnum < rden`, C04).
 
 `specBatches` / `specRows` are the reference semantics (batches of `Stream.chunkSpec`, mirrored triplets of every batch);
 `renderLines` is the csv writer with a free quoting choice per cell and a free terminator per line.
@@ -120,15 +123,15 @@ theorem grouped_keys_sorted (ar : Arith α σ) (rules : List (C05.Cond × C05.Ca
 
 /-! ## 3. the per-batch score of a pair is the selected heuristic on the category codes of the two columns -/
 
-/-- `batch_score_is_heuristic` (all heuristics but `Constant`, every arithmetic): the rows of a batch are exactly, for
-every requested pair `p` (C06 `combos`), the two orientations of `p`, both carrying the score of C05's `triplet` of the
-batch's frame – label oriented to the conditioning side, dispatch through `rules`, category codes of the two columns
-(C06 `rows_of_evaluated` / `rows_only_evaluated`). -/
+/-- `batch_score_is_heuristic` (all heuristics but `Constant`, every arithmetic, every sampling ratio): the rows of a
+batch are exactly, for every requested pair `p` (C06 `combos`), the two orientations of `p`, both carrying the score of
+C05's `triplet` of the batch's frame – label oriented to the conditioning side, dispatch through `rules`, category codes
+of the two columns, the configured ratio handed to the scorer (C06 `rows_of_evaluated` / `rows_only_evaluated`). -/
 theorem batch_score_is_heuristic (ar : Arith α σ) (rules : List (C05.Cond × C05.Callee)) (cn : String) (c : Cfg)
     (hc : c.constant = false) (cols : List String) (rows : List (List C16.Str)) (k : String × String) (s : σ) :
     (k, s) ∈ batchRows ar rules cn c cols rows ↔
       ∃ p ∈ pairs c cols, (k = p ∨ k = (p.2, p.1)) ∧
-        s = ar.emb (C05.triplet ar.mi rules cn (frame cols rows) c.label c.heuristic 1 1 p).2.2 := by
+        s = ar.emb (C05.triplet ar.mi rules cn (frame cols rows) c.label c.heuristic c.rnum c.rden p).2.2 := by
   rw [batchRows_eq_mirror ar rules cn c hc, mem_mirror_keyed]
   rfl
 
@@ -144,10 +147,10 @@ theorem scored_columns_full (c : Cfg) (cols : List String) (hl : c.label ∈ col
   · rw [show C05.orient p c.label = (p.2, p.1) from h]
     exact ⟨frame_column_length cols rows _ hn.2, frame_column_length cols rows _ hn.1⟩
 
-/-- `MI-numba-3mr` over ℝ, regenerated dispatch table: every row of a non-empty batch carries the PLUG-IN MUTUAL
+/-- `MI-numba-3mr` over ℝ at sampling ratio 1 (`1 / 1`), regenerated dispatch table: every row of a non-empty batch carries the PLUG-IN MUTUAL
 INFORMATION of the category codes of its two columns (C05 `triplet_scores`, C01 `estimator_eq_plugin`). -/
 theorem batch_score_3mr (ord : Ops σ) (emb : C05.Score ℝ → σ) (c : Cfg) (h3 : c.heuristic = "MI-numba-3mr")
-    (cols : List String) (hl : c.label ∈ cols) (rows : List (List C16.Str)) (hr : rows ≠ [])
+    (hr1 : c.rnum = 1) (hr2 : c.rden = 1) (cols : List String) (hl : c.label ∈ cols) (rows : List (List C16.Str)) (hr : rows ≠ [])
     (k : String × String) (s : σ)
     (hm : (k, s) ∈ batchRows ⟨MI.realOps, ord, emb⟩ C05.Gen.rules C05.Gen.correctionName c cols rows) :
     ∃ p ∈ pairs c cols, (k = p ∨ k = (p.2, p.1)) ∧
@@ -160,14 +163,14 @@ theorem batch_score_3mr (ord : Ops σ) (emb : C05.Score ℝ → σ) (c : Cfg) (h
   have hcol := scored_columns_full c cols hl rows p hp
   have hpos : 0 < rows.length := List.length_pos_iff.mpr hr
   have ht := (C05.triplet_scores (frame cols rows) c.label p (by rw [hcol.1, hcol.2]) (by rw [hcol.2]; exact hpos)).2.1
-  rw [h3]
+  rw [h3, hr1, hr2]
   exact congrArg (fun t => emb t.2.2) ht
 
-/-- `MI-numba-randomized` over ℝ: a row whose two coded columns differ carries `H(F* | L) − H(F | L)` – `F` the first,
+/-- `MI-numba-randomized` over ℝ at sampling ratio 1 (`1 / 1`): a row whose two coded columns differ carries `H(F* | L) − H(F | L)` – `F` the first,
 `L` the second (conditioning) column of the ORIENTED pair, `F*` the displaced copy – and a row whose two coded columns
 coincide carries the entropy of that column (C05 `triplet_scores`, C03 `corrected_identity` / `corrected_self`). -/
 theorem batch_score_randomized (ord : Ops σ) (emb : C05.Score ℝ → σ) (c : Cfg)
-    (h3 : c.heuristic = "MI-numba-randomized") (cols : List String) (hl : c.label ∈ cols)
+    (h3 : c.heuristic = "MI-numba-randomized") (hr1 : c.rnum = 1) (hr2 : c.rden = 1) (cols : List String) (hl : c.label ∈ cols)
     (rows : List (List C16.Str)) (hr : rows ≠ []) (k : String × String) (s : σ)
     (hm : (k, s) ∈ batchRows ⟨MI.realOps, ord, emb⟩ C05.Gen.rules C05.Gen.correctionName c cols rows) :
     ∃ p ∈ pairs c cols, (k = p ∨ k = (p.2, p.1)) ∧
@@ -189,7 +192,7 @@ theorem batch_score_randomized (ord : Ops σ) (emb : C05.Score ℝ → σ) (c : 
     have hcol := scored_columns_full c cols hl rows p hp
     have hpos : 0 < rows.length := List.length_pos_iff.mpr hr
     have ht := C05.triplet_scores (frame cols rows) c.label p (by rw [hcol.1, hcol.2]) (by rw [hcol.2]; exact hpos)
-    rw [h3]
+    rw [h3, hr1, hr2]
   · intro hne
     exact congrArg (fun t => emb t.2.2) (ht.2.2.1 hne)
   · intro he
@@ -221,7 +224,7 @@ theorem spec_batches_nonempty (c : Cfg) (hb : 1 ≤ c.batch) (header : C16.Str) 
 chunk specification, of the PLUG-IN MUTUAL INFORMATION of the category codes of the row's two columns in that batch
 (composition of `pair_score_is_median` and `batch_score_3mr`). -/
 theorem table_score_3mr (ord : Ops σ) (emb : C05.Score ℝ → σ) (c : Cfg) (h3 : c.heuristic = "MI-numba-3mr")
-    (hb : 1 ≤ c.batch) (hs : 1 ≤ c.sub) (header : C16.Str) (lines : List C16.Str)
+    (hr1 : c.rnum = 1) (hr2 : c.rden = 1) (hb : 1 ≤ c.batch) (hs : 1 ≤ c.sub) (header : C16.Str) (lines : List C16.Str)
     (hl : c.label ∈ headerCols header) (a b : String) (s : σ)
     (h : ((a, b), s) ∈ (rankFile ⟨MI.realOps, ord, emb⟩ C05.Gen.rules C05.Gen.correctionName c header lines).table) :
     ∃ scores : List σ, s = median ord scores ∧ scores ≠ [] ∧
@@ -245,7 +248,7 @@ theorem table_score_3mr (ord : Ops σ) (emb : C05.Score ℝ → σ) (c : Cfg) (h
       have := List.mem_filter.mp hr
       have hk : r.1 = (a, b) := by simpa using this.2
       rw [← hk]; exact this.1
-    obtain ⟨p, hp, hk, hx'⟩ := batch_score_3mr ord emb c h3 (headerCols header) hl rows
+    obtain ⟨p, hp, hk, hx'⟩ := batch_score_3mr ord emb c h3 hr1 hr2 (headerCols header) hl rows
       (spec_batches_nonempty c hb header lines rows hrows) (a, b) x hmem
     exact ⟨rows, hrows, p, hp, hk, hx'⟩
 
@@ -254,7 +257,7 @@ the coded columns of that batch (`L` = second column of the oriented pair = the 
 resp. of the entropy of the column when the two coded columns coincide
 (composition of `pair_score_is_median` and `batch_score_randomized`). -/
 theorem table_score_randomized (ord : Ops σ) (emb : C05.Score ℝ → σ) (c : Cfg)
-    (h3 : c.heuristic = "MI-numba-randomized") (hb : 1 ≤ c.batch) (hs : 1 ≤ c.sub) (header : C16.Str)
+    (h3 : c.heuristic = "MI-numba-randomized") (hr1 : c.rnum = 1) (hr2 : c.rden = 1) (hb : 1 ≤ c.batch) (hs : 1 ≤ c.sub) (header : C16.Str)
     (lines : List C16.Str) (hl : c.label ∈ headerCols header) (a b : String) (s : σ)
     (h : ((a, b), s) ∈ (rankFile ⟨MI.realOps, ord, emb⟩ C05.Gen.rules C05.Gen.correctionName c header lines).table) :
     ∃ scores : List σ, s = median ord scores ∧ scores ≠ [] ∧
@@ -279,7 +282,7 @@ theorem table_score_randomized (ord : Ops σ) (emb : C05.Score ℝ → σ) (c : 
       have := List.mem_filter.mp hr
       have hk : r.1 = (a, b) := by simpa using this.2
       rw [← hk]; exact this.1
-    obtain ⟨p, hp, hk, hx1, hx2⟩ := batch_score_randomized ord emb c h3 (headerCols header) hl rows
+    obtain ⟨p, hp, hk, hx1, hx2⟩ := batch_score_randomized ord emb c h3 hr1 hr2 (headerCols header) hl rows
       (spec_batches_nonempty c hb header lines rows hrows) (a, b) x hmem
     exact ⟨rows, hrows, p, hp, hk, hx1, hx2⟩
 
@@ -429,30 +432,232 @@ theorem quoting_irrelevant (ar : Arith α σ) (rules : List (C05.Cond × C05.Cal
   rw [rankFile_of_table ar rules cn c header quote term table hcells hterm,
     rankFile_of_table ar rules cn c header quote' term' table hcells hterm']
 
+/-! ## 6. the sub-sampled estimator (`--mi_stratified_sampling_ratio` = `rnum / rden` < 1; C04) -/
+
+/-- a heuristic of the `MI-numba` family is not `Constant` -/
+theorem numba_not_constant (c : Cfg) (hn : C05.infixB "MI-numba".toList c.heuristic.toList = true) :
+    c.constant = false := by
+  unfold Cfg.constant
+  cases e : c.heuristic == "Constant" with
+  | false => rfl
+  | true => rw [beq_iff_eq.1 e] at hn; exact absurd hn (by decide)
+
+/-- C04 `subsample_safe` inside the estimator, every arithmetic: below ratio 1 the estimator IS its core applied to the
+stated sample `MI.sampleSpec` (whatever the uninitialised index buffer held) -/
+theorem estimator_subsampled (o : MI.Ops α) (Y X : List Nat) (rnum rden : Nat) (cc : Bool) (h : Y.length = X.length)
+    (hr : rnum < rden) :
+    MI.estimator o Y X rnum rden cc
+      = .ok (MI.estimatorCore o X (MI.sampleSpec Y X rnum rden).1 (MI.sampleSpec Y X rnum rden).2 rnum rden cc) := by
+  unfold MI.estimator
+  rw [if_pos hr, MI.subsample_safe (fun _ => 0) Y X rnum rden h]
+
+/-- the coded columns of a requested pair have the batch's length -/
+theorem coded_columns_full (c : Cfg) (cols : List String) (hl : c.label ∈ cols) (rows : List (List C16.Str))
+    (p : String × String) (hp : p ∈ pairs c cols) :
+    (C05.catCodes (C05.column (frame cols rows) (C05.orient p c.label).1)).length = rows.length ∧
+    (C05.catCodes (C05.column (frame cols rows) (C05.orient p c.label).2)).length = rows.length := by
+  rw [C05.catCodes_length, C05.catCodes_length]
+  exact scored_columns_full c cols hl rows p hp
+
+/-- `batch_score_subsampled` (Goal A; `MI-numba` family, every arithmetic, regenerated dispatch table, `rnum < rden`):
+the rows of a batch are exactly, for every requested pair `p`, the two orientations of `p`, both carrying the
+ESTIMATOR CORE (`MI.estimatorCore`: strata / counts of the FULL conditioning column `B`, entropies of the sample,
+result scaled by `rnum / rden`) applied to the stated sample `MI.sampleSpec A B` of the category codes `A`, `B` of the
+ORIENTED pair (label second) – i.e. `MI.estimator A B rnum rden flag` with its memory model discharged
+(C05 `numba_family`, `orient`; C04 `subsample_safe`).  What the sample is: `batch_sample_rows`. -/
+theorem batch_score_subsampled (ar : Arith α σ) (c : Cfg)
+    (hn : C05.infixB "MI-numba".toList c.heuristic.toList = true) (hr : c.rnum < c.rden)
+    (cols : List String) (hl : c.label ∈ cols) (rows : List (List C16.Str)) (k : String × String) (s : σ) :
+    (k, s) ∈ batchRows ar C05.Gen.rules C05.Gen.correctionName c cols rows ↔
+      ∃ p ∈ pairs c cols, (k = p ∨ k = (p.2, p.1)) ∧
+        let A := C05.catCodes (C05.column (frame cols rows) (C05.orient p c.label).1)
+        let B := C05.catCodes (C05.column (frame cols rows) (C05.orient p c.label).2)
+        MI.estimator ar.mi A B c.rnum c.rden (C05.correctionFlag C05.Gen.correctionName c.heuristic)
+          = .ok (MI.estimatorCore ar.mi B (MI.sampleSpec A B c.rnum c.rden).1 (MI.sampleSpec A B c.rnum c.rden).2
+                  c.rnum c.rden (C05.correctionFlag C05.Gen.correctionName c.heuristic)) ∧
+        s = ar.emb (.val (MI.estimatorCore ar.mi B (MI.sampleSpec A B c.rnum c.rden).1
+              (MI.sampleSpec A B c.rnum c.rden).2 c.rnum c.rden
+              (C05.correctionFlag C05.Gen.correctionName c.heuristic))) := by
+  rw [batch_score_is_heuristic ar _ _ c (numba_not_constant c hn) cols rows k s]
+  have key : ∀ p ∈ pairs c cols,
+      let A := C05.catCodes (C05.column (frame cols rows) (C05.orient p c.label).1)
+      let B := C05.catCodes (C05.column (frame cols rows) (C05.orient p c.label).2)
+      MI.estimator ar.mi A B c.rnum c.rden (C05.correctionFlag C05.Gen.correctionName c.heuristic)
+          = .ok (MI.estimatorCore ar.mi B (MI.sampleSpec A B c.rnum c.rden).1 (MI.sampleSpec A B c.rnum c.rden).2
+                  c.rnum c.rden (C05.correctionFlag C05.Gen.correctionName c.heuristic)) ∧
+      ar.emb (C05.triplet ar.mi C05.Gen.rules C05.Gen.correctionName (frame cols rows) c.label c.heuristic
+          c.rnum c.rden p).2.2
+        = ar.emb (.val (MI.estimatorCore ar.mi B (MI.sampleSpec A B c.rnum c.rden).1
+              (MI.sampleSpec A B c.rnum c.rden).2 c.rnum c.rden
+              (C05.correctionFlag C05.Gen.correctionName c.heuristic))) := by
+    intro p hp A B
+    have hlen := coded_columns_full c cols hl rows p hp
+    have he := estimator_subsampled ar.mi A B c.rnum c.rden
+      (C05.correctionFlag C05.Gen.correctionName c.heuristic) (hlen.1.trans hlen.2.symm) hr
+    refine ⟨he, ?_⟩
+    simp only [C05.triplet, C05.tripletC, C05.codesOf_codeFrame, C05.numba_family c.heuristic hn, C05.scoreOf]
+    rw [he]
+  constructor
+  · rintro ⟨p, hp, hk, rfl⟩
+    exact ⟨p, hp, hk, (key p hp).1, (key p hp).2⟩
+  · rintro ⟨p, hp, hk, _, rfl⟩
+    exact ⟨p, hp, hk, (key p hp).2.symm⟩
+
+/-- `batch_sample_rows` (what the sample of a scoring call is; C04 `sampleSpec`, `sampledRows_valid`,
+`sampledRows_quota`): for the coded columns `A`, `B` of an oriented requested pair, the sample is `A` and `B` read at the
+row numbers `MI.sampledRows B rnum rden`; these are pairwise different rows of the batch; with
+`quota = ⌊⌊rnum·n / rden⌋ / #values of B⌋` (n = rows of the batch) they are ALL rows when the quota is 0, and otherwise,
+for every value `x` of the conditioning column, exactly the FIRST `quota` rows of the batch carrying `x`. -/
+theorem batch_sample_rows (c : Cfg) (cols : List String) (hl : c.label ∈ cols) (rows : List (List C16.Str))
+    (p : String × String) (hp : p ∈ pairs c cols) :
+    let A := C05.catCodes (C05.column (frame cols rows) (C05.orient p c.label).1)
+    let B := C05.catCodes (C05.column (frame cols rows) (C05.orient p c.label).2)
+    let q := MI.quota rows.length (MI.vals B).length c.rnum c.rden
+    MI.sampleSpec A B c.rnum c.rden
+      = ((MI.sampledRows B c.rnum c.rden).filterMap (A.toArray[·]?),
+         (MI.sampledRows B c.rnum c.rden).filterMap (B.toArray[·]?)) ∧
+    (∀ i ∈ MI.sampledRows B c.rnum c.rden, i < rows.length) ∧ (MI.sampledRows B c.rnum c.rden).Nodup ∧
+    (q = 0 → MI.sampledRows B c.rnum c.rden = List.range rows.length) ∧
+    (q ≠ 0 → ∀ x, (MI.sampledRows B c.rnum c.rden).filter (fun i => B[i]? == some x) = (MI.positions B x).take q) := by
+  intro A B q
+  have hlen := (coded_columns_full c cols hl rows p hp).2
+  have hv := MI.sampledRows_valid B c.rnum c.rden
+  refine ⟨rfl, ?_, hv.2, ?_, ?_⟩
+  · intro i hi; rw [← hlen]; exact hv.1 i hi
+  · intro hq
+    show (if MI.quota B.length (MI.vals B).length c.rnum c.rden = 0 then List.range B.length else _) = _
+    rw [hlen, if_pos hq]
+  · intro hq x
+    have := MI.sampledRows_quota B c.rnum c.rden x (by rw [hlen]; exact hq)
+    rw [hlen] at this
+    exact this
+
+/-- `batch_score_sample_only` (C04 `score_sample_only` through the pipeline): two batches that give a requested pair
+the same coded conditioning column and coded feature columns that agree on the SAMPLED rows give the pair the same
+score – feature values outside the sample do not matter (`MI-numba` family, `rnum < rden`, every arithmetic). -/
+theorem batch_score_sample_only (ar : Arith α σ) (c : Cfg)
+    (hn : C05.infixB "MI-numba".toList c.heuristic.toList = true) (hr : c.rnum < c.rden)
+    (cols : List String) (hl : c.label ∈ cols) (rows rows' : List (List C16.Str))
+    (p : String × String) (hp : p ∈ pairs c cols)
+    (hB : C05.catCodes (C05.column (frame cols rows) (C05.orient p c.label).2)
+        = C05.catCodes (C05.column (frame cols rows') (C05.orient p c.label).2))
+    (hA : ∀ i ∈ MI.sampledRows (C05.catCodes (C05.column (frame cols rows) (C05.orient p c.label).2)) c.rnum c.rden,
+      (C05.catCodes (C05.column (frame cols rows) (C05.orient p c.label).1))[i]?
+        = (C05.catCodes (C05.column (frame cols rows') (C05.orient p c.label).1))[i]?) :
+    scorePair ar C05.Gen.rules C05.Gen.correctionName c (C05.codeFrame (frame cols rows)) p
+      = scorePair ar C05.Gen.rules C05.Gen.correctionName c (C05.codeFrame (frame cols rows')) p := by
+  have h1 := coded_columns_full c cols hl rows p hp
+  have h2 := coded_columns_full c cols hl rows' p hp
+  have hn' : rows'.length = rows.length := by rw [← h2.2, ← hB, h1.2]
+  simp only [scorePair, C05.tripletC, C05.codesOf_codeFrame, C05.numba_family c.heuristic hn, C05.scoreOf]
+  rw [← hB, MI.score_sample_only ar.mi _ _ _ c.rnum c.rden _ (h1.1.trans h1.2.symm)
+    (h2.1.trans (hn'.trans h1.2.symm)) hr hA]
+
+/-- at ratio 1 (more generally `rden ≤ rnum`) nothing is sampled, for every arithmetic: the score is the estimator core
+on the whole coded columns (this is what the driver runs at `Float` for `--mi_stratified_sampling_ratio 1.0`) -/
+theorem batch_score_unsampled (ar : Arith α σ) (c : Cfg)
+    (hn : C05.infixB "MI-numba".toList c.heuristic.toList = true) (hr : c.rden ≤ c.rnum)
+    (cols : List String) (rows : List (List C16.Str)) (k : String × String) (s : σ) :
+    (k, s) ∈ batchRows ar C05.Gen.rules C05.Gen.correctionName c cols rows ↔
+      ∃ p ∈ pairs c cols, (k = p ∨ k = (p.2, p.1)) ∧
+        let A := C05.catCodes (C05.column (frame cols rows) (C05.orient p c.label).1)
+        let B := C05.catCodes (C05.column (frame cols rows) (C05.orient p c.label).2)
+        s = ar.emb (.val (MI.estimatorCore ar.mi B A B c.rnum c.rden
+              (C05.correctionFlag C05.Gen.correctionName c.heuristic))) := by
+  rw [batch_score_is_heuristic ar _ _ c (numba_not_constant c hn) cols rows k s]
+  have key : ∀ p : String × String,
+      ar.emb (C05.triplet ar.mi C05.Gen.rules C05.Gen.correctionName (frame cols rows) c.label c.heuristic
+          c.rnum c.rden p).2.2
+        = ar.emb (.val (MI.estimatorCore ar.mi (C05.catCodes (C05.column (frame cols rows) (C05.orient p c.label).2))
+            (C05.catCodes (C05.column (frame cols rows) (C05.orient p c.label).1))
+            (C05.catCodes (C05.column (frame cols rows) (C05.orient p c.label).2)) c.rnum c.rden
+            (C05.correctionFlag C05.Gen.correctionName c.heuristic))) := by
+    intro p
+    simp only [C05.triplet, C05.tripletC, C05.codesOf_codeFrame, C05.numba_family c.heuristic hn, C05.scoreOf,
+      MI.estimator, if_neg (Nat.not_lt.mpr hr)]
+  constructor
+  · rintro ⟨p, hp, hk, rfl⟩
+    exact ⟨p, hp, hk, key p⟩
+  · rintro ⟨p, hp, hk, rfl⟩
+    exact ⟨p, hp, hk, (key p).symm⟩
+
+/-- every score of `pairwise_ranks.tsv` is the median of a non-empty list of per-batch scores, each emitted for that
+pair by a batch of the chunk specification (`pair_score_is_median` in the form the `table_score_…` theorems use) -/
+theorem table_score_from_batches (ar : Arith α σ) (rules : List (C05.Cond × C05.Callee)) (cn : String) (c : Cfg)
+    (hb : 1 ≤ c.batch) (hs : 1 ≤ c.sub) (header : C16.Str) (lines : List C16.Str) (a b : String) (s : σ)
+    (h : ((a, b), s) ∈ (rankFile ar rules cn c header lines).table) :
+    ∃ scores : List σ, s = median ar.ord scores ∧ scores ≠ [] ∧
+      ∀ x ∈ scores, ∃ rows ∈ specBatches c header lines,
+        ((a, b), x) ∈ batchRows ar rules cn c (headerCols header) rows := by
+  obtain ⟨⟨rows0, hrows0, s0, hm0⟩, hmed⟩ := (pair_score_is_median ar rules cn c hb hs header lines a b s).mp h
+  refine ⟨_, hmed, ?_, ?_⟩
+  · intro e
+    have hsub := (List.flatten_eq_nil_iff.mp e) _ (List.mem_map.mpr ⟨rows0, hrows0, rfl⟩)
+    exact (exists_mem_iff_scoresOf _ _).mp ⟨s0, hm0⟩ hsub
+  · intro x hx
+    obtain ⟨l, hl', hxl⟩ := List.mem_flatten.mp hx
+    obtain ⟨rows, hrows, rfl⟩ := List.mem_map.mp hl'
+    refine ⟨rows, hrows, ?_⟩
+    unfold scoresOf at hxl
+    obtain ⟨r, hr, rfl⟩ := List.mem_map.mp hxl
+    have := List.mem_filter.mp hr
+    have hk : r.1 = (a, b) := by simpa using this.2
+    rw [← hk]; exact this.1
+
+/-- DESIGN §11.2 with `--mi_stratified_sampling_ratio` < 1 (`MI-numba` family, every arithmetic): the score of a row of
+`pairwise_ranks.tsv` is the MEDIAN, over the batches of the chunk specification, of the estimator core applied to the
+per-stratum first-quota sample (`batch_sample_rows`) of the category codes of the row's two columns in that batch,
+label on the conditioning side (composition of `pair_score_is_median` and `batch_score_subsampled`). -/
+theorem table_score_subsampled (ar : Arith α σ) (c : Cfg)
+    (hn : C05.infixB "MI-numba".toList c.heuristic.toList = true) (hr : c.rnum < c.rden)
+    (hb : 1 ≤ c.batch) (hs : 1 ≤ c.sub) (header : C16.Str) (lines : List C16.Str)
+    (hl : c.label ∈ headerCols header) (a b : String) (s : σ)
+    (h : ((a, b), s) ∈ (rankFile ar C05.Gen.rules C05.Gen.correctionName c header lines).table) :
+    ∃ scores : List σ, s = median ar.ord scores ∧ scores ≠ [] ∧
+      ∀ x ∈ scores, ∃ rows ∈ specBatches c header lines, ∃ p ∈ pairs c (headerCols header),
+        ((a, b) = p ∨ (a, b) = (p.2, p.1)) ∧
+        let A := C05.catCodes (C05.column (frame (headerCols header) rows) (C05.orient p c.label).1)
+        let B := C05.catCodes (C05.column (frame (headerCols header) rows) (C05.orient p c.label).2)
+        x = ar.emb (.val (MI.estimatorCore ar.mi B (MI.sampleSpec A B c.rnum c.rden).1
+              (MI.sampleSpec A B c.rnum c.rden).2 c.rnum c.rden
+              (C05.correctionFlag C05.Gen.correctionName c.heuristic))) := by
+  obtain ⟨scores, hmed, hne, hall⟩ := table_score_from_batches ar _ _ c hb hs header lines a b s h
+  refine ⟨scores, hmed, hne, fun x hx => ?_⟩
+  obtain ⟨rows, hrows, hmem⟩ := hall x hx
+  obtain ⟨p, hp, hk, _, hx'⟩ := (batch_score_subsampled ar c hn hr (headerCols header) hl rows (a, b) x).mp hmem
+  exact ⟨rows, hrows, p, hp, hk, hx'⟩
+
 /-! ## non-vacuity -/
 
 -- a concrete file (kernel-evaluated; toy arithmetic, exact `max-value-coverage` scores): B = 2, one quoted cell, one
 -- line with three fields (invalid), last line without terminator; two batches; medians over the two batches
-example : (rankFile Toy.arith C05.Gen.rules C05.Gen.correctionName ⟨2, 1, "max-value-coverage", "label", true⟩
+example : (rankFile Toy.arith C05.Gen.rules C05.Gen.correctionName ⟨2, 1, "max-value-coverage", "label", true, 1, 1⟩
       "a,label\n".toList ["x,1\n".toList, "\"x\",1\n".toList, "y,0,0\n".toList, "y,0\n".toList, "x,0".toList]).table
     = [(("a", "label"), (3 : Rat) / 4), (("label", "a"), (3 : Rat) / 4), (("label", "label"), 1)] := by
   decide +kernel
-example : ((rankFile Toy.arith C05.Gen.rules C05.Gen.correctionName ⟨2, 1, "max-value-coverage", "label", true⟩
+example : ((rankFile Toy.arith C05.Gen.rules C05.Gen.correctionName ⟨2, 1, "max-value-coverage", "label", true, 1, 1⟩
       "a,label\n".toList ["x,1\n".toList, "\"x\",1\n".toList, "y,0,0\n".toList, "y,0\n".toList, "x,0".toList]).invalid,
-    (rankFile Toy.arith C05.Gen.rules C05.Gen.correctionName ⟨2, 1, "max-value-coverage", "label", true⟩
+    (rankFile Toy.arith C05.Gen.rules C05.Gen.correctionName ⟨2, 1, "max-value-coverage", "label", true, 1, 1⟩
       "a,label\n".toList ["x,1\n".toList, "\"x\",1\n".toList, "y,0,0\n".toList, "y,0\n".toList, "x,0".toList]).batches)
     = (1, 2) := by decide +kernel
 -- the hypotheses of the theorems are satisfiable together
-example : let c : Cfg := ⟨2, 1, "MI-numba-3mr", "label", false⟩
+example : let c : Cfg := ⟨2, 1, "MI-numba-3mr", "label", false, 1, 1⟩
     1 ≤ c.batch ∧ 1 ≤ c.sub ∧ c.constant = false ∧ c.is3mr = true ∧ c.label ∈ headerCols "a,label\n".toList
-      ∧ (headerCols "a,label\n".toList).Nodup := by decide
-example : let c : Cfg := ⟨64, 3, "MI-numba-randomized", "label", true⟩
+      ∧ (headerCols "a,label\n".toList).Nodup ∧ c.rnum = 1 ∧ c.rden = 1 := by decide
+example : let c : Cfg := ⟨64, 3, "MI-numba-randomized", "label", true, 1, 1⟩
     c.constant = false ∧ c.is3mr = false ∧ c.targetOnly = true := by decide
-example : specBatches ⟨2, 1, "MI-numba-randomized", "label", true⟩ "a,label\n".toList
+example : specBatches ⟨2, 1, "MI-numba-randomized", "label", true, 1, 1⟩ "a,label\n".toList
     ["x,1\n".toList, "y,0,0\n".toList, "y,0\n".toList] ≠ [] := by decide
 example : renderLines (fun k i => k == 1 && i == 0) (fun k => if k == 0 then "\r\n".toList else [])
       ["x,y".toList :: ["1".toList], ["z".toList, "".toList]]
     = ["\"x,y\",1\r\n".toList, "\"z\",".toList] := by decide
 example : LinOrd Toy.arith.ord.le := C08.ratOps_linOrd
+-- non-vacuity: a ratio below 1 (the float32 value of 0.9), the `MI-numba` family, a sample that is a proper part
+example : let c : Cfg := ⟨64, 1, "MI-numba-randomized", "label", true, 15099494, 16777216⟩
+    C05.infixB "MI-numba".toList c.heuristic.toList = true ∧ c.rnum < c.rden ∧ c.constant = false := by decide
+example : MI.sampledRows [0, 0, 0, 1] 3 4 = [0, 3] ∧
+    MI.sampleSpec [5, 6, 7, 8] [0, 0, 0, 1] 3 4 = ([5, 8], [0, 1]) := by
+  simp [MI.sampleSpec, MI.sampledRows, MI.Smp.vals_example, MI.quota, MI.positions, List.zipIdx]
+
 
 end Pipeline
